@@ -30,6 +30,7 @@
 #include <errno.h>
 #include <fcntl.h>
 #include <poll.h>
+#include <signal.h>
 #include <stdio.h>
 #include <stdlib.h>
 #include <string.h>
@@ -55,11 +56,25 @@ static void *pset[PSET];
 static long live;
 #define TOMB ((void *)1)
 static unsigned ph(void *p) { return (unsigned)(((uintptr_t)p >> 4) * 2654435761u) % PSET; }
+#include <execinfo.h>
+#define BT 10
+static void *pset_bt[PSET][BT]; static size_t pset_sz[PSET];     /* filled in --replay mode only: where a leaked block came from */
+static size_t cur_alloc_size;
 static void pset_add(void *p)
 {
 	unsigned i = ph(p);
 	while (pset[i] && pset[i] != TOMB) i = (i + 1) % PSET;
 	pset[i] = p;
+	if (mc_replaying()) { memset(pset_bt[i], 0, sizeof pset_bt[i]); backtrace(pset_bt[i], BT); pset_sz[i] = cur_alloc_size; }
+}
+static void pset_report_leaks(void)
+{
+	if (!mc_replaying()) return;
+	for (int i = 0; i < PSET; i++) if (pset[i] && pset[i] != TOMB) {
+		int n = 0; while (n < BT && pset_bt[i][n]) n++;
+		printf("LEAKED block of %zu bytes allocated at:\n", pset_sz[i]); fflush(stdout);
+		backtrace_symbols_fd(pset_bt[i] + 2, n > 2 ? n - 2 : 0, 1);
+	}
 }
 static int pset_del(void *p)
 {
@@ -74,14 +89,14 @@ static void pset_compact(void)
 	memset(pset, 0, sizeof pset);
 	for (int i = 0; i < n; i++) pset_add(keep[i]);
 }
-static void *m_malloc(size_t n) { void *p = malloc(n ? n : 1); if (p) { live++; pset_add(p); } return p; }
+static void *m_malloc(size_t n) { cur_alloc_size = n; void *p = malloc(n ? n : 1); if (p) { live++; pset_add(p); } return p; }
 static void m_free(void *p) { if (!p) return; if (pset_del(p)) live--; free(p); }
 static void *m_realloc(void *p, size_t n)
 {
 	if (!p) return m_malloc(n);
 	if (!n) { m_free(p); return NULL; }
 	void *q = realloc(p, n);
-	if (q && q != p) { pset_del(p); pset_add(q); }
+	if (q && q != p) { pset_del(p); cur_alloc_size = n; pset_add(q); }
 	return q;
 }
 void rpcgen_free(void *p) { if (p && pset_del(p)) live--; free(p); }
@@ -293,7 +308,8 @@ static void handler(int which, void *rpcv)
 		else if (!raw_expect_valid) mc_fail("C43/handler-invoked-for-malformed-request", "handler of %s ran for a request the reference decoder rejects", rpc_name[which]);
 		else if (!ref_msg_eq(&got, &raw_expect)) mc_fail("C43/handler-request-differs", "handler received a request that differs from the reference decoding of the body");
 		else MC_COUNT("oracle_handler_request_checked");
-		mc_observe("handler(%s) ", rpc_name[which]);
+		s1_rk = mc_choose(2, 0, "reply-kind");
+		mc_observe("handler(%s)->k%d ", rpc_name[which], s1_rk);
 		produce_reply(rpc, NULL, s1_rk);
 		return;
 	}
@@ -480,7 +496,18 @@ static void teardown(void)
 	if (base) event_base_free(base);
 	base = NULL; event_global_current_base_ = NULL;
 	MC_COUNT("oracle_baselines_checked");
-	if (live != live0) mc_fail(any_terminate && scenario == 0 ? "C43/memory-leak/hook-terminate" : "C43/memory-leak", "%ld library allocations still live after pool, rpc base, http server and event base were freed", live - live0);
+	if (live != live0) pset_report_leaks();
+	if (live != live0) {
+		char key[96] = "C43/memory-leak";
+		if (scenario == 0 && any_terminate) {
+			/* attribute to the first hook position that aborts */
+			static const char *const pos[N_HOOK] = { "client-output", "client-input", "server-input", "server-output" };
+			for (int i = 0; i < N_HOOK; i++) if (hook_beh[i] == HB_TERMINATE || hook_beh[i] == HB_PAUSE_TERM || hook_beh[i] == HB_PAUSE_TERM_LATE) { snprintf(key, sizeof key, "C43/memory-leak/%s-hook-terminate", pos[i]); break; }
+		} else if (scenario == 1 && raw_expect_valid == 0 && ref_partial_run_strings > 0 && live - live0 == ref_partial_run_strings)
+			/* generated msg_unmarshal(): a `run` array element whose unmarshalling fails is neither counted in run_length nor freed */
+			snprintf(key, sizeof key, "C43/memory-leak/generated-unmarshal-drops-failed-array-element");
+		mc_fail(key, "%ld library allocations still live after pool, rpc base, http server and event base were freed", live - live0);
+	}
 	if (fd_table_signature() != fds0) mc_fail("C43/fd-leak", "fd table differs from the baseline");
 }
 static void final_checks(void)
@@ -531,7 +558,8 @@ static void scenario_e2e(void)
 	base = new_base();
 	if (!base || server_setup() < 0) { mc_fail("harness:setup", "server setup failed: %s", strerror(errno)); teardown(); return; }
 	pool = evrpc_pool_new(base);
-	int nconn = 1 + mc_choose(2, 0, "connections");
+	int varcost = mc_param("free", 0) ? 0 : 1;       /* -P free=1: request content and pool size are free choices (full cross product) */
+	int nconn = 1 + mc_choose(2, varcost, "connections");
 	/* hooks: each configured position is one deviation */
 	for (int i = 0; i < N_HOOK; i++) {
 		hook_beh[i] = mc_choose(N_HB, 1, hook_name[i]);
@@ -555,7 +583,7 @@ static void scenario_e2e(void)
 		struct creq *cr = &creq[i];
 		cr->used = 1; cr->rk = -1;
 		cr->kind = mc_choose(N_RPCKIND, 0, "rpc");
-		cr->msg_idx = mc_choose(nmsg, 0, "msg");
+		cr->msg_idx = mc_choose(nmsg, varcost, "msg");
 		cr->msg = msg_new(); cr->reply = kill_new();
 		fill_msg(cr->msg, &cat_msg[cr->msg_idx]);
 	}
@@ -647,10 +675,13 @@ static void scenario_rawclient(void)
 	base = new_base();
 	if (!base || server_setup() < 0) { mc_fail("harness:setup", "server setup failed: %s", strerror(errno)); teardown(); return; }
 	int idx = mc_choose(mc_param("msgs", N_MSG), 0, "msg");
-	raw_kind = mc_choose(2, 0, "uri");
-	int method = mc_choose(3, 0, "method");
-	s1_rk = mc_choose(2, 0, "reply-kind");
-	int mut = mc_choose(N_MUT, 0, "mutation"), want_cut, mutated;
+	/* request line: the RPC's own POST, the other RPC's URI, or another method on the own URI */
+	int variant = mc_choose(4, 0, "request-line");
+	raw_kind = variant == 1; 
+	int method = variant == 2 ? 1 : variant == 3 ? 2 : 0;
+	s1_rk = 0;
+	/* body mutations are combined with the other request lines only with -P rawfull=1 */
+	int mut = (variant == 0 || mc_param("rawfull", 0)) ? mc_choose(N_MUT, 0, "mutation") : MUT_NONE, want_cut, mutated;
 	if (marshal_catalogue_msg(idx) < 0) { teardown(); return; }
 	mc_observe("rawc %s %s m%d ", methods[method], rpc_name[raw_kind], idx);
 	mutated = mutate_body(mut, &want_cut);
@@ -719,10 +750,10 @@ static void scenario_rawserver(void)
 	unsigned char reqbuf[4096]; size_t req_len = 0; int req_complete = 0, responded = 0;
 	base = new_base();
 	if (!base) { mc_fail("harness:setup", "x"); return; }
-	int idx = mc_choose(mc_param("msgs", N_MSG), 0, "msg");
 	int kidx = mc_choose(N_KILL, 0, "reply");
 	int behaviour = mc_choose(3, 0, "server");        /* 0 answer, 1 silent (timeout), 2 close right after accept */
 	int mut = behaviour == 0 ? mc_choose(N_MUT, 0, "mutation") : MUT_NONE, want_cut = 0, mutated = 0;
+	int idx = mut == MUT_NONE ? mc_choose(mc_param("msgs", N_MSG), 0, "msg") : 0;   /* the request's content does not interact with reply mutations */
 	if (marshal_catalogue_kill(kidx) < 0) { teardown(); return; }
 	mc_observe("raws m%d k%d %s ", idx, kidx, behaviour == 0 ? "answer" : behaviour == 1 ? "silent" : "close");
 	if (behaviour == 0) mutated = mutate_body(mut, &want_cut);
@@ -804,6 +835,7 @@ static void init(void)
 {
 	event_set_mem_functions(m_malloc, m_realloc, m_free);
 	event_set_log_callback(logcb);
+	signal(SIGPIPE, SIG_IGN);          /* as every network program does: a write to a dead connection must return EPIPE */
 	catalogue_init();
 }
 static void body_fn(void)
